@@ -25,7 +25,8 @@ NoDupAttr(d) == \A i, j \in DOMAIN d : d[i].k = "attr" /\ d[j].k = "attr" /\ d[i
 
 P2 == <<B("r", <<"other">>, <<>>), At("a", Lit("number", "5"))>>
 P3 == <<At("zed", List(<<Lit("number", "0")>>)), B("k", <<"l1">>, <<>>)>>
-Queries == {"", "r", "\"l1\"", "r \"l", "zz", "a", "k \"l1\""}
+\* (blanks are characters of a name like any other: a query is matched literally, with its leading / trailing blanks)
+Queries == {"", "r", "\"l1\"", "r \"l", "zz", "a", "k \"l1\"", "r ", " r", " ", "  "}
 
 Init == \/ \E d \in {d \in Docs : NoDupAttr(d)} : case = [mode |-> "file", doc |-> d]
         \/ \E d \in {d \in Docs : NoDupAttr(d) /\ Len(d) <= 2}, bad \in SUBSET {1, 2, 3}, q \in Queries :
